@@ -15,7 +15,7 @@ from . import core
 
 LEVEL = "exploration"
 RULE = ("scenario = 1-2 timers (interval in {0,1,2,5}, named Klong callback) x callback script of <=8 ticks (duration "
-        "in {0,0.4,1.25,2.45} intervals, return 1/2/0, action none/cancel-self/cancel-other/redefine/raise) x loop start "
+        "in {0,0.4,0.6,0.85,1.25,1.75,2.45} intervals, return 1/2/0, action none/cancel-self/cancel-other/redefine/raise) x loop start "
         "time in {0,0.3,1000.1,12345.678} x per-wake-up dispatch latency (exact, half a clock resolution early, late by "
         "0.3/1.7 intervals) x external .timerc calls at generated times, run on a virtual-time loop; non-trivial = some "
         "timer has >=3 ticks and at least one action, non-zero duration or non-exact latency; distinct by scenario")
@@ -114,7 +114,7 @@ class VLoop:
 
 # ----------------------------------------------------------------------------- scenario
 
-DUR = [0.0, 0.4, 1.25, 2.45]
+DUR = [0.0, 0.4, 0.6, 0.85, 1.25, 1.75, 2.45]      # fractions of the interval on both sides of one half (a rounding rule would differ there)
 LAT = ['exact', 'early', 0.3, 1.7]
 
 
